@@ -211,6 +211,37 @@ theorem open_once_count (fd0 : Option Nat) (script : List Outcome) (xlens : List
     · rw [h, List.filter_append, fails, List.nil_append, List.filter_cons, none_of hR]
       simp [isOpenOk]
 
+/-- **open_once, for every value of the descriptor.**  Whatever non-negative value `f` the successful `open` returns —
+    `0`, `1`, `2` (the process runs with its standard streams closed), a small number, `INT_MAX` — the calls that follow, in
+    this call and in all later ones, are reads on exactly `f` and sleeps; the device is never opened again.  (The model keeps
+    the static descriptor as `Option Nat`: "not open" is `none` = the C value `-1`, and `some 0` is an open descriptor like
+    any other; the code's test is `fd == -1`, not `fd <= 0`.) -/
+theorem open_once_any_descriptor (f : Nat) (s : List Outcome) (x : Nat) (xs : List Nat) :
+    ∃ R, allLog (runCalls none (.openOk f :: s) (x :: xs)) = .open (some f) :: R ∧ ∀ c ∈ R, ReadPhase f c := by
+  simp only [runCalls, randombytes, openLoop]
+  have ht := readLoop_trace f s (List.replicate x none) 0 x
+  cases hr : readLoop f s (List.replicate x none) 0 x with
+  | stopped w b lg f' =>
+    rw [hr] at ht
+    exact ⟨lg, by simp [allLog, Result.addLog, Result.log], readTrace_readPhase ht⟩
+  | done b lg r f' =>
+    rw [hr] at ht
+    have hf : f' = f := (readLoop_done f s [] x (by simpa using hr)).1
+    subst hf
+    refine ⟨lg ++ allLog (runCalls (some f') r xs), by simp [allLog, Result.addLog, Result.log], ?_⟩
+    intro c hc
+    rcases List.mem_append.mp hc with hc | hc
+    · exact readTrace_readPhase ht c hc
+    · exact runCalls_some_readPhase f' xs r c hc
+
+/-- descriptor 0 concretely: three calls (one of length 0) after `open` returned 0 — one `open`, every read on descriptor 0 -/
+example : allLog (runCalls none [.openOk 0, .readBytes [7], .readErr, .readBytes [8]] [1, 0, 1]) =
+    [.open (some 0), .read 0 0 1 1, .read 0 0 1 (-1), .sleep 1, .read 0 0 1 1] := by decide
+
+/-- the same with the largest descriptor an `int` can hold -/
+example : allLog (runCalls none [.openFail, .openOk 2147483647, .readBytes [7], .readBytes [8]] [1, 1]) =
+    [.open none, .sleep 1, .open (some 2147483647), .read 2147483647 0 1 1, .read 2147483647 0 1 1] := by decide
+
 /-! ## zero_len -/
 
 /-- **zero_len**, descriptor open: nothing at all happens (no call, empty buffer, script untouched) -/
